@@ -757,8 +757,17 @@ def run(ctx):
         from gen import c18_producers
     except ImportError:
         ctx.note('end-to-end producers module not present: producers not exercised')
+        _note_known(ctx)
         return
     c18_producers.run(ctx)
+    _note_known(ctx)
+
+
+def _note_known(ctx):
+    ks = sorted(k for k in ctx.stats if k.startswith('known_not_stored_'))
+    if ks:
+        ctx.note('oracle failures counted but not stored (all inside the strict input class of an open known finding; '
+                 'core keeps at most 200 stored cases): ' + ', '.join(f'{k[len("known_not_stored_"):]}: {ctx.stats[k]}' for k in ks))
 
 
 def search(ctx):
